@@ -729,4 +729,57 @@ func DecrementVal
   requires isInt(operand) && canon(operand)
   ensures val: isInt(ret) && intval(ret) == old(intval(operand)) - 1
   ensures canon: canon(ret)
+
+// ---- shifts ----------------------------------------------------------------------
+// x << n == x * 2^n,  x >> n == floor(x / 2^n)  (n >= 0; a negative count shifts the other way)
+spec fn shl(x int, n int) int = ite(n >= 0, x * pow2(n), ediv(x, pow2(-n)))
+
+func leftBitshiftSmallInt
+  props C06 C01
+  instantiate SmallInt
+  instantiate UInt64
+  instantiate Int8
+  instantiate UInt8
+  instantiate Int64
+  instantiate Int32
+  instantiate Int16
+  instantiate UInt
+  instantiate UInt32
+  instantiate UInt16
+  cases other 0 64
+  assigns nothing
+  ensures val: other >= 0 ==> isInt(ret) && intval(ret) == i * pow2(other)
+  ensures neg: other < 0 ==> isSmall(ret) && intval(ret) == 0
+  ensures canon: canon(ret)
+
+func rightBitshiftSmallInt
+  props C06 C01
+  instantiate SmallInt
+  instantiate UInt64
+  instantiate Int8
+  instantiate UInt8
+  instantiate Int64
+  instantiate Int32
+  instantiate Int16
+  instantiate UInt
+  instantiate UInt32
+  instantiate UInt16
+  cases other 0 64
+  assigns nothing
+  ensures val: other >= 0 ==> isInt(ret) && intval(ret) == ediv(i, pow2(other))
+  ensures neg: other < 0 ==> isSmall(ret) && intval(ret) == 0
+  ensures canon: canon(ret)
+
+func (SmallInt).LeftBitshiftSmallInt
+  props C06
+  assigns nothing
+  ensures val: isInt(ret) && intval(ret) == shl(i, other)
+  ensures canon: canon(ret)
+
+func (SmallInt).RightBitshiftSmallInt
+  props C06
+  assigns nothing
+  // i >> MinSmallInt would be i * 2^(2^63): not representable, excluded
+  ensures val: other > MinSmallInt ==> isInt(ret) && intval(ret) == shl(i, -other)
+  ensures canon: canon(ret)
 @*/
